@@ -1,6 +1,7 @@
 package main
 
 import (
+	"sync/atomic"
 	"sort"
 	"context"
 	"fmt"
@@ -73,6 +74,7 @@ func runC12(c string) string {
 	cfg := parseConfig(segs[0])
 	s := startSession(cfg)
 	defer s.close()
+	atomic.StoreInt64(&xMax, 0)
 	ctx := context.Background()
 	var results []*exec.Result
 	var outs []string
@@ -159,6 +161,8 @@ func runC12(c string) string {
 			} else {
 				out = "skipped"
 			}
+		case "xconc":
+			out = fmt.Sprintf("xconc=%d", atomic.LoadInt64(&xMax))
 		case "procs":
 			// the cluster manager's accounting once nothing runs: procs booked per machine (C14)
 			var last string
